@@ -54,7 +54,7 @@ theorem obuf_empty_after_space (E : Env) (n : Bool) (wf : EnvWF E) (s : State) (
 invisible when no hyphenation is pending. -/
 theorem crlf_equiv (E : Env) (n : Bool) (wf : EnvWF E) (s : State) (r : Rune)
     (hsp : E.isSpace r = true) (hr : r ≠ nl)
-    (hd : s.deferredEOL = false) (hw : s.deferredWord = false) (hh : s.obuf.getLast? ≠ some hyphen) :
+    (hd : s.deferredEOL = false) (hw : s.deferredLines = 0) (hh : s.obuf.getLast? ≠ some hyphen) :
     step E n (step E n s r) nl = step E n s nl :=
   crlf_equiv' E n wf s r hsp hr hd hw hh
 
